@@ -1,43 +1,189 @@
 """C11 - Two-way references stay symmetric."""
-from vlib import histories
+import json
+from vlib import histories, invariants, snapshot
 
 LEVEL = 'exploration'
 RULE = ('seeded histories on reference-rich documents: AddReverseColumn, edits on either side (bulk updates with duplicate '
-        'targets, clears, moves), record removals on both tables, Ref<->RefList switches on either side, link removal, undo; '
+        'targets, clears, moves), record removals on both tables, Ref<->RefList switches on either side, link removal, undo/redo; '
         'after each successful bundle the relation of every reverse-linked pair is compared with the inverse of its partner. '
-        'Bundles rejected (e.g. uniqueness) must leave no trace. A case = one bundle; non-trivial = the document has >= 1 '
-        'linked pair with >= 1 referring cell and the bundle changed a cell; distinct by (user-action kinds, stored shape).')
-ASSUMPTIONS = ['wrong-typed (alt text) cells and dangling ids are ignored on both sides']
-REQUIRED = {'C11.checked': {'quick': 1500, 'thorough': 30000}}
+        'Bundles rejected for uniqueness must leave the document unchanged. A case = one bundle; non-trivial = the document '
+        'has >= 1 linked pair with >= 1 referring cell and the bundle changed a cell; distinct by (user-action kinds, stored shape).')
+ASSUMPTIONS = ['cells that do not hold a value of the column type (alt text, lists with non-id elements) and ids of rows that do '
+               'not exist are ignored on both sides',
+               'only rejections with UniqueReferenceError are judged here (other failed bundles are the subject of C04)',
+               'trigger states of the two open findings are quarantined: a bundle after which a linked column has a default / '
+               'trigger formula is taken back unjudged, a bundle in which one record action wrote both columns of a pair and '
+               'left them asymmetric is reported under the finding and taken back']
+REQUIRED = {'C11.checked': {'quick': 1500, 'thorough': 10000}, 'unique_rejections': {'quick': 5, 'thorough': 100},
+            'bundles_with_linked_pairs': {'quick': 150, 'thorough': 1500}}
 
 WEIGHTS = {'add_ref_column': 10, 'add_reverse': 10, 'add_records': 14, 'update_records': 22, 'remove_records': 8, 'modify_type': 4,
            'add_formula_column': 1, 'add_data_column': 1, 'create_summary': 0.5, 'remove_column': 2, 'remove_table': 0.6,
            'rename_column': 1.5, 'rename_table': 1, 'invalid': 1, 'duplicate_table': 0.5, 'add_view': 0.1, 'create_section': 0.1,
            'set_display_formula': 0.3, 'add_empty_rule': 0.1, 'meta_update_col': 1}
 
+KNOWN_FORMULA = 'formula_writes_two_way_column'
+KNOWN_BOTH = 'one_action_writes_both_sides'
+
+
 def plan(tier, seed):
-  n, steps = (16, 50) if tier == 'quick' else (160, 90)
-  return [{'hseed': seed * 100003 + 11000 + i, 'steps': steps} for i in range(n)]
+  n, steps = (16, 50) if tier == 'quick' else (64, 90)
+  return [{'witness': 'formula_writes_two_way_column'}, {'witness': 'one_action_writes_both_sides'}] + \
+         [{'hseed': seed * 100003 + 11000 + i, 'steps': steps} for i in range(n)]
 
 
-class TwoWay(histories.InvariantMonitor):
-  def after_bundle(self, h, ctx):
-    if ctx.err is not None:
-      from vlib import snapshot
-      d = snapshot.diff(ctx.S0, ctx.S1, maxn=3)
-      h.acc.count('rejections_checked')
-      if ctx.err.cls == 'UniqueReferenceError' or 'UniqueReference' in ctx.err.text:
-        h.acc.count('unique_rejections')
-      if d:
-        h.violation('rejected_left_trace', 'rejected bundle %s (%s) changed the document: %s' % (
-            histories.action_kinds(ctx.bundle), ctx.err.cls, d), {'bundle': ctx.bundle})
+def linked_columns_with_formula(S):
+  """Trigger state of the open finding formula_writes_two_way_column: a linked (data) column that has
+  a default / trigger formula. Values a formula writes do not pass through the reverse adjustment."""
+  meta = invariants.colmeta(S)
+  pairs, _ = invariants.two_way_pairs(S)
+  out = []
+  for a, b in pairs:
+    for k in (a, b):
+      if not meta[k]['isFormula'] and meta[k]['formula']:
+        out.append(k)
+  return out
+
+
+def pairs_written_by_one_action(bundle, S0, S1):
+  """Pairs both of whose columns (necessarily of one table) are named by a single record action."""
+  out = set()
+  pairs = invariants.two_way_pairs(S1)[0] + invariants.two_way_pairs(S0)[0]
+  def walk(actions):
+    for a in actions:
+      if not (isinstance(a, list) and a):
+        continue
+      if a[0] in ('ApplyDocActions', 'ApplyUndoActions') and len(a) > 1 and isinstance(a[1], list):
+        walk(a[1])
+      if len(a) > 3 and a[0] in ('AddRecord', 'BulkAddRecord', 'UpdateRecord', 'BulkUpdateRecord', 'ReplaceTableData') \
+          and isinstance(a[3], dict):
+        for (t, c), (t2, c2) in pairs:
+          if t == t2 == a[1] and c in a[3] and c2 in a[3]:
+            out.add(((t, c), (t2, c2)))
+            out.add(((t2, c2), (t, c)))
+  walk(bundle)
+  return out
+
+
+def witness_formula_writes_two_way_column(acc):
+  """Open finding: T.R (Ref:U) has the default formula 2; after AddReverseColumn T R a new T record gets
+  R = 2 from the formula, but U.T[2] does not list it."""
+  from vlib.client import EngineProc
+  with EngineProc() as p:
+    p.init_doc()
+    p.apply([['AddTable', 'U', [{'id': 'X', 'type': 'Int', 'isFormula': False}]]])
+    p.apply([['BulkAddRecord', 'U', [None, None], {'X': [1, 2]}]])
+    p.apply([['AddTable', 'T', [{'id': 'A', 'type': 'Int', 'isFormula': False},
+                                {'id': 'R', 'type': 'Ref:U', 'isFormula': False, 'formula': '2'}]]])
+    p.apply([['AddReverseColumn', 'T', 'R']])
+    acc.count('witness_runs')
+    S = snapshot.take(p)
+    if invariants.c11(S)[0] or not linked_columns_with_formula(S):
+      acc.violation('witness_setup', 'witness history: unexpected state before the trigger: %s' % invariants.c11(S)[0][:2], {})
       return
-    histories.InvariantMonitor.after_bundle(self, h, ctx)
+    p.apply([['AddRecord', 'T', None, {'A': 5}]])
+    for mech, msg in invariants.c11(snapshot.take(p))[0][:1]:
+      acc.violation(KNOWN_FORMULA if mech == 'asymmetric' else mech,
+                    'witness: [AddRecord T {A: 5}] with T.R = default formula 2, linked to U.T: %s' % msg, {})
+
+
+def witness_one_action_writes_both_sides(acc):
+  """Open finding: T.R (Ref:T) <-> T.T (RefList:T), R[3] = 2. [BulkUpdateRecord T [1, 2] {R: [2, 0],
+  T: [null, null]}] names both columns: the adjustment for R[1] = 2 puts 1 into T[2], then the action's
+  own value empties T[2]: R[1] = 2 without 1 in T[2]."""
+  from vlib.client import EngineProc
+  with EngineProc() as p:
+    p.init_doc()
+    p.apply([['AddTable', 'T', [{'id': 'R', 'type': 'Ref:T', 'isFormula': False}]]])
+    p.apply([['BulkAddRecord', 'T', [None, None, None], {}]])
+    p.apply([['AddReverseColumn', 'T', 'R']])
+    p.apply([['UpdateRecord', 'T', 3, {'R': 2}]])
+    acc.count('witness_runs')
+    S0 = snapshot.take(p)
+    if invariants.c11(S0)[0]:
+      acc.violation('witness_setup', 'witness history: asymmetric before the trigger: %s' % invariants.c11(S0)[0][:2], {})
+      return
+    bundle = [['BulkUpdateRecord', 'T', [1, 2], {'R': [2, 0], 'T': [None, None]}]]
+    r, e = p.try_apply(bundle)
+    if e is not None:
+      return     # rejected: the defect is gone
+    S1 = snapshot.take(p)
+    det = []
+    both = pairs_written_by_one_action(bundle, S0, S1)
+    for (mech, msg), info in list(zip(invariants.c11(S1, det)[0], det))[:1]:
+      acc.violation(KNOWN_BOTH if mech == 'asymmetric' and info.get('pair') in both else mech,
+                    'witness: %s after R[3] = 2: %s' % (json.dumps(bundle[0]), msg), {})
+
+
+class TwoWay(histories.Monitor):
+  MUTATES = True
+
+  def __init__(self):
+    self.undo = histories.UndoRedoMonitor(check_undo=False, check_redo=False, final_unwind=False, aux=True)
+    self.stop = False
+
+  def start(self, h):
+    self.undo.start(h)
+
+  def take_back(self, h, ctx, why):
+    h.acc.count('bundles_taken_back.' + why)
+    h.apply([['ApplyUndoActions', json.loads(json.dumps(ctx.reply.undo))]], 'take-back')
+    if snapshot.diff(ctx.S0, h.snap(), maxn=1):
+      h.acc.count('histories_cut_short.' + why)
+      self.stop = True
+
+  def after_bundle(self, h, ctx):
+    acc = h.acc
+    if self.stop:
+      return
+    if ctx.err is not None:
+      if ctx.err.cls == 'UniqueReferenceError' or 'UniqueReference' in ctx.err.text or 'UNIQUE reference' in ctx.err.text:
+        acc.count('unique_rejections')
+        kind, d = histories.trace_kind(ctx.S0, ctx.S1)
+        if kind == 'formula_cells' and histories.reference_was_stale(h, ctx.S0, ctx.S1):
+          acc.count('prestate_not_a_fixpoint')      # C05's subject (DESIGN.md 3.6), the comparison is void
+        elif kind is not None:
+          h.violation('unique_rejection_left_trace', 'bundle %s rejected with UniqueReferenceError changed the document: %s' % (
+              histories.action_kinds(ctx.bundle), d[:3]), {'bundle': ctx.bundle})
+        acc.case(histories.shape_hash('unique-rejection', histories.action_kinds(ctx.bundle)), None)
+      else:
+        acc.count('other_rejections_not_judged')
+        acc.case(None)
+      return
+    S1 = ctx.S1
+    if linked_columns_with_formula(S1):
+      # trigger state of the open finding formula_writes_two_way_column (shown by its witness shard)
+      acc.case(None)
+      self.take_back(h, ctx, KNOWN_FORMULA)
+      return
+    det = []
+    msgs, n = invariants.c11(S1, det)
+    acc.count('C11.checked', n)
+    if n:
+      acc.count('bundles_with_linked_pairs')
+    both = pairs_written_by_one_action(ctx.bundle, ctx.S0, S1) if msgs else set()
+    hit = False
+    shown = 0
+    for (mech, msg), info in zip(msgs, det):
+      if mech == 'asymmetric' and info.get('pair') in both:
+        mech = KNOWN_BOTH
+        hit = True
+      elif shown >= 3:
+        continue
+      else:
+        shown += 1
+      h.violation(mech, '%s after bundle %s' % (msg, histories.action_kinds(ctx.bundle)), {'bundle': ctx.bundle})
+    nh = histories.nontrivial_hash(ctx) if n > len(invariants.two_way_pairs(S1)[0]) else None
+    acc.case(nh, {'bundle': ctx.bundle} if nh else None)
+    if hit:
+      self.take_back(h, ctx, KNOWN_BOTH)
+      return
+    self.undo.after_bundle(h, ctx)
 
 
 def run_shard(spec, acc):
-  flags = {'bundle_multi': 0.3, 'max_tables': 3, 'max_rows': 8, 'wrong': 0.05}
-  mon = TwoWay(['C11'])
-  undo = histories.UndoRedoMonitor(check_undo=False, check_redo=False, final_unwind=False, aux=True)
-  h = histories.History(acc, spec['hseed'], [mon, undo], spec['steps'], weights=WEIGHTS, flags=flags)
+  if spec.get('witness'):
+    return globals()['witness_' + spec['witness']](acc)
+  flags = {'bundle_multi': 0.3, 'max_tables': 3, 'max_rows': 8, 'wrong': 0.05, 'ref_default_formula': 0.0}
+  h = histories.History(acc, spec['hseed'], [TwoWay()], spec['steps'], weights=WEIGHTS, flags=flags)
   h.run()
